@@ -1,11 +1,177 @@
-(** C11 -- The LEF reader never crashes or hangs on any input text. (initial statements) *)
+(** C11 -- The LEF reader never crashes or hangs on any input text.
+
+    Model: Lef/LefLex.v (lexer over the UTF-8 bytes of the text), Lef/LefParse.v ([parse cf src]), Lef/LefWrite.v.
+    [cf : cfg] selects, defect by defect, the code as found or as repaired; the only flag that bears on crashes is
+    [c_charpos] (the lexer counted characters but sliced bytes; repaired in /repo).  All theorems below hold for
+    EVERY cfg with [c_charpos cf = false] and for ALL valid UTF-8 byte strings, with no bound on their size.
+
+    Fuel.  The model has its fuel built in, linear in the input: the lexer runs with [lex_fuel src = length src + 1]
+    and every parser loop starts with [fuel_of st] = (number of remaining tokens) + 1 <= length src + 1
+    ([C11_fuel_linear]).  So [parse cf src] is "parse with fuel linear in length src", [parse .. <> OutOfFuel] says
+    that no loop uses its fuel up: every iteration that goes round again has consumed a token (a byte, in the lexer).
+    Wall-clock time and machine stack depth of the implementation are measured by the correspondence run, not proved. *)
 From Coq Require Import ZArith List Bool.
-From L21 Require Import Lef.LefDec Lef.LefData Lef.LefLex Lef.LefParse Lef.LefLex_proofs Lef.LefParse_proofs.
+From L21 Require Import Lef.LefDec Lef.LefData Lef.LefLex Lef.LefParse Lef.LefWrite
+  Lef.LefLex_proofs Lef.LefParse_proofs Lef.LefSafety_proofs.
 Import ListNotations.
 Local Open Scope Z_scope.
 
+(** ** The code as found: refuted *)
 Theorem C11_no_panic_orig_refuted :
   exists src, utf8_valid src /\ parse cfg_orig src = Panic.
 Proof. exists witness_version. split. vm_compute; reflexivity. exact parse_orig_panics_version. Qed.
 
+Theorem C11_lex_orig_refuted :
+  exists src, utf8_valid src /\ snd (lex true src) = LPanic.
+Proof. exists witness_version. split. vm_compute; reflexivity. exact lex_orig_panics. Qed.
+
+(** ** The lexer *)
+(** Every position the lexer records -- token start, token stop, line start -- is a character boundary of the
+    source in range ([bnd]), start <= stop; so `Token::substr`, `lex_number`'s `&buf[0..pos-start-1]` and the
+    line slice of `LefParser::state` index on boundaries. *)
+Theorem C11_lex_positions_on_boundaries :
+  forall src toks e, utf8_valid src -> lex false src = (toks, e) ->
+    Forall (fun ti => bnd src (t_start (ti_tok ti)) /\ bnd src (t_stop (ti_tok ti))
+                      /\ t_start (ti_tok ti) <= t_stop (ti_tok ti) /\ bnd src (ti_linestart ti)
+                      /\ substr src (ti_tok ti) <> None) toks
+    /\ (forall p l ls, e = LEof p l ls -> bnd src ls)
+    /\ (length toks <= length src)%nat.
+Proof. exact lex_positions. Qed.
+
+Theorem C11_lex_no_panic : forall src, utf8_valid src -> snd (lex false src) <> LPanic.
+Proof. exact lex_no_panic. Qed.
+
+(** termination within [lex_fuel src = S (length src)] steps, for either position unit *)
+Theorem C11_lex_terminates : forall cm src, snd (lex cm src) <> LFuel.
+Proof. exact lex_terminates. Qed.
+
+(** ** The reader *)
+Theorem C11_no_panic :
+  forall cf src, c_charpos cf = false -> utf8_valid src -> parse cf src <> Panic.
+Proof. exact parse_no_panic. Qed.
+
+Theorem C11_terminates_linear :
+  forall cf src, c_charpos cf = false -> utf8_valid src -> parse cf src <> OutOfFuel.
+Proof. exact parse_terminates. Qed.
+
+(** the fuels are linear in the input: the lexer's, and that of every parser loop (the state a loop starts in
+    holds a suffix of the token list, which has at most [length src] entries) *)
+Theorem C11_fuel_linear :
+  forall cm src, lex_fuel src = S (length src) /\
+    forall v c, (fuel_of (mkpst (fst (lex cm src)) (snd (lex cm src)) v c) <= S (length src))%nat.
+Proof. exact fuel_linear. Qed.
+
+(** the reader returns a library or an error *)
+Theorem C11_total :
+  forall cf src, c_charpos cf = false -> utf8_valid src ->
+    (exists l, parse cf src = Ok l) \/ (exists e, parse cf src = Err e) \/ parse cf src = Unmodelled.
+Proof. exact parse_total. Qed.
+
+(** ** Write and read again *)
+Theorem C11_rewrite_safe :
+  forall cf src l, c_charpos cf = false -> utf8_valid src -> parse cf src = Ok l ->
+    write_lib cf l <> Panic /\ (forall t, write_lib cf l = Ok t -> parse cf t <> Panic /\ parse cf t <> OutOfFuel).
+Proof. intros cf src l Hcf _ _. exact (rewrite_safe_gen cf l Hcf). Qed.
+
+(** ** Non-vacuity *)
+(** a text with multi-byte characters in a comment, in names (macro, pin, layer, property) and in a string:
+<<
+# commentaire é中😀 ü
+VERSION 5.8 ;
+BUSBITCHARS "[]" ;
+DIVIDERCHAR "/" ;
+MACRO mé中
+  CLASS CORE ;
+  PROPERTY clé "valeur é😀" ;
+  SIZE 1.5 BY 2 ;
+  PIN p中
+    DIRECTION INPUT ;
+    PORT
+      LAYER métal1 ;
+      RECT 0 0 1 1 ;
+    END
+  END p中
+END mé中
+END LIBRARY
+>> *)
+Definition c11_example : bytes :=
+  [35;32;99;111;109;109;101;110;116;97;105;114;101;32;195;169;228;184;173;240;159;152;128;32;195;188;10;86;69;82;
+   83;73;79;78;32;53;46;56;32;59;10;66;85;83;66;73;84;67;72;65;82;83;32;34;91;93;34;32;59;10;
+   68;73;86;73;68;69;82;67;72;65;82;32;34;47;34;32;59;10;77;65;67;82;79;32;109;195;169;228;184;173;
+   10;32;32;67;76;65;83;83;32;67;79;82;69;32;59;10;32;32;80;82;79;80;69;82;84;89;32;99;108;195;
+   169;32;34;118;97;108;101;117;114;32;195;169;240;159;152;128;34;32;59;10;32;32;83;73;90;69;32;49;46;53;
+   32;66;89;32;50;32;59;10;32;32;80;73;78;32;112;228;184;173;10;32;32;32;32;68;73;82;69;67;84;73;
+   79;78;32;73;78;80;85;84;32;59;10;32;32;32;32;80;79;82;84;10;32;32;32;32;32;32;76;65;89;69;
+   82;32;109;195;169;116;97;108;49;32;59;10;32;32;32;32;32;32;82;69;67;84;32;48;32;48;32;49;32;49;
+   32;59;10;32;32;32;32;69;78;68;10;32;32;69;78;68;32;112;228;184;173;10;69;78;68;32;109;195;169;228;
+   184;173;10;69;78;68;32;76;73;66;82;65;82;89;10].
+(** "VERSION 5.8 ;\n<CJK><CJK> <e-acute> FOO <emoji>": an error whose report slices a line of multi-byte characters *)
+Definition c11_example_err : bytes :=
+  [86;69;82;83;73;79;78;32;53;46;56;32;59;10;228;184;173;228;184;173;32;195;169;32;70;79;79;32;240;159;
+   152;128].
+
+Example C11_nonvacuous_valid : utf8_valid c11_example /\ utf8_valid c11_example_err.
+Proof. split; vm_compute; reflexivity. Qed.
+
+(** it reads as a library with one macro named "m<e-acute><CJK>", one pin, one property (kept by the repaired reader) *)
+Example C11_nonvacuous_parse :
+  match parse cfg_fixed c11_example with
+  | Ok l =>
+    match lib_macros l with
+    | [m] => bytes_eqb (mac_name m) [109;195;169;228;184;173] && (length (mac_pins m) =? 1)%nat && (length (mac_properties m) =? 1)%nat
+    | _ => false
+    end
+  | _ => false
+  end = true.
+Proof. vm_compute. reflexivity. Qed.
+
+(** with the flags of today's tree too (only [c_charpos] is repaired there besides the fix commits recorded) *)
+Example C11_nonvacuous_parse_any_cfg :
+  forall a b c d e f g, exists l, parse (mkcfg false a b c d e f g) c11_example = Ok l /\ length (lib_macros l) = 1%nat.
+Proof. intros [] [] [] [] [] [] []; vm_compute; eexists; split; reflexivity. Qed.
+
+(** the error path: the report's line content is the whole second line, 18 bytes for 9 characters *)
+Example C11_nonvacuous_error :
+  exists tp m cx tok lc ln pos, parse cfg_fixed c11_example_err = Err (EParse tp m cx tok lc ln pos) /\ length lc = 18%nat.
+Proof. vm_compute. do 7 eexists. split; reflexivity. Qed.
+
+(** the library is written and the text read again *)
+Example C11_nonvacuous_rewrite :
+  match parse cfg_fixed c11_example with
+  | Ok l => match write_lib cfg_fixed l with
+            | Ok t => match parse cfg_fixed t with Ok l' => utf8_validb t && (length (lib_macros l') =? 1)%nat | _ => false end
+            | _ => false
+            end
+  | _ => false
+  end = true.
+Proof. vm_compute. reflexivity. Qed.
+
+(** [utf8_valid] is Rust's `str::from_utf8` acceptance: overlong forms, surrogates, values above U+10FFFF,
+    stray continuation bytes and truncated sequences are rejected *)
+Example C11_utf8_validator :
+  utf8_validb [195;169] = true /\ utf8_validb [228;184;173] = true /\ utf8_validb [240;159;152;128] = true
+  /\ utf8_validb [244;143;191;191] = true /\ utf8_validb [237;159;191] = true /\ utf8_validb [238;128;128] = true
+  /\ utf8_validb [192;128] = false /\ utf8_validb [193;191] = false /\ utf8_validb [224;159;191] = false
+  /\ utf8_validb [240;143;191;191] = false /\ utf8_validb [237;160;128] = false /\ utf8_validb [244;144;128;128] = false
+  /\ utf8_validb [245;128;128;128] = false /\ utf8_validb [128] = false /\ utf8_validb [195] = false
+  /\ utf8_validb [226;130] = false /\ utf8_validb [65;191] = false /\ utf8_validb [256] = false /\ utf8_validb [-1] = false.
+Proof. vm_compute. repeat split. Qed.
+
+(** ** Pins *)
+Check C11_no_panic : forall cf src, c_charpos cf = false -> utf8_valid src -> parse cf src <> Panic.
+Check C11_terminates_linear : forall cf src, c_charpos cf = false -> utf8_valid src -> parse cf src <> OutOfFuel.
+Check C11_lex_no_panic : forall src, utf8_valid src -> snd (lex false src) <> LPanic.
+Check C11_lex_terminates : forall cm src, snd (lex cm src) <> LFuel.
+Check C11_rewrite_safe : forall cf src l, c_charpos cf = false -> utf8_valid src -> parse cf src = Ok l ->
+    write_lib cf l <> Panic /\ (forall t, write_lib cf l = Ok t -> parse cf t <> Panic /\ parse cf t <> OutOfFuel).
+
 Print Assumptions C11_no_panic_orig_refuted.
+Print Assumptions C11_lex_orig_refuted.
+Print Assumptions C11_lex_positions_on_boundaries.
+Print Assumptions C11_lex_no_panic.
+Print Assumptions C11_lex_terminates.
+Print Assumptions C11_no_panic.
+Print Assumptions C11_terminates_linear.
+Print Assumptions C11_fuel_linear.
+Print Assumptions C11_total.
+Print Assumptions C11_rewrite_safe.
